@@ -170,6 +170,10 @@ MUTANTS = [
      r'String::from\("export LISTEN_PID=\$\$; exec "\)', 'String::from("exec ")', {"C16"}),
     ("bridge-command-stdio-shares-one-descriptor", "varlink/src/client.rs",
      r"let childout = childin\.try_clone\(\)\.map_err\(map_context!\(\)\)\?;", "let childout = unsafe { ::std::fs::File::from_raw_fd(fd) };", {"C16"}),
+    ("bridge-connect-unwraps-missing-child", "varlink-cli/src/proxy.rs",
+     r'\.expect\("only the child watcher sends 3"\)\s*\.join\(\)', '.unwrap()\n                .join()', None),
+    ("bridge-connect-child-required", "varlink-cli/src/proxy.rs",
+     r"let child_watch = conn\.child\.take\(\)\.map\(\|mut child\| \{", "let mut child = conn.child.take().unwrap();\n    let child_watch = Some(()).map(|_| {", {"C18"}),
 ]
 
 
